@@ -7,8 +7,11 @@
                third-party/mmatch/mmatch.c:170-257  (match(): `*`, `?`, `\*`, `\?`, tolower on both sides)
                lib/remote/httputility.cpp:40-53     (GetLastParameter: the last element of an array counts).
 
-  Permission filters and user filters are abstract predicates on objects (`Obj → Bool`); the DSL that
-  computes them is not part of this property.  What the name-index fast path (C16) recognises in a user
+  Permission filters and user filters are abstract (the DSL that computes them is not part of this
+  property): a user filter is `Obj → Option Bool` (`none`: evaluation raises), a permission filter is
+  `Option Obj → Obj → Option Bool` — its value may depend on what the name `service` is bound to in the
+  permission frame, because GetFilterTargets evaluates the permission filter of ALL objects of one request
+  in ONE frame (filterutility.cpp:217-218) and EvaluateFilter only adds bindings (:96-116).  What the name-index fast path (C16) recognises in a user
   filter is an input (`UFilter.fast`).  Core Lean only.
 -/
 namespace Icinga.C18
@@ -65,10 +68,14 @@ structure Obj where
   name : String
   deriving DecidableEq, Repr
 
+/-- A permission filter: `binding` is what the name `service` refers to when the filter runs (`none`:
+    unbound), the object is the target; `none` as value: the evaluation raises an error. -/
+abbrev PFilter := Option Obj → Obj → Option Bool
+
 /-- One element of `ApiUser.permissions`: a plain string (no filter) or `{permission, filter}`. -/
 structure Perm where
   pattern : String
-  filter : Option (Obj → Bool)
+  filter : Option PFilter
 
 abbrev User := List Perm
 
@@ -104,6 +111,9 @@ structure QD where
   permission : String
   /-- the provider is the default `ConfigObjectTargetProvider` (filterutility.cpp:284) -/
   cfgProvider : Bool := true
+  /-- `true`: the code as it is — one permission frame for all objects of the request (:217-218).
+      `false`: the repaired code — a fresh permission frame for every object. -/
+  sharedFrame : Bool := true
 
 inductive Err
   | permission            -- "Missing permission: …"                         :199
@@ -139,15 +149,44 @@ def hasPermission (u : User) (required : String) : Bool :=
 
 /-- :174-184 the filters of the matching entries *that have one*, in order; they are OR-ed.  A matching
     entry without a filter adds nothing.  `[]` is the null `permissionFilter`. -/
-def permissionFilters (u : User) (required : String) : List (Obj → Bool) :=
+def permissionFilters (u : User) (required : String) : List PFilter :=
   if required == "" then [] else
   (u.filter (permMatches required)).filterMap (·.filter)
 
+/-- `f1.call(this) || f2.call(this) || …` (:183, LogicalOrExpression): left to right, the first true operand
+    decides, an operand that raises ends the evaluation with that error. -/
+def orAny : List PFilter → Option Obj → Obj → Option Bool
+  | [], _, _ => some false
+  | f :: fs, b, o =>
+    match f b o with
+    | none => none
+    | some true => some true
+    | some false => orAny fs b o
+
 /-- EvaluateFilter (:71-75: `if (!filter) return true`) applied to the OR-chain built above. -/
-def permFilterFn (u : User) (required : String) : Obj → Bool :=
-  match permissionFilters u required with
-  | [] => fun _ => true
-  | fs => fun o => fs.any (fun f => f o)
+def pfVal (fs : List PFilter) (b : Option Obj) (o : Obj) : Option Bool :=
+  if fs.isEmpty then some true else orAny fs b o
+
+/-! ## The permission frame (filterutility.cpp:71-119, 217-218)
+
+  EvaluateFilter binds `obj`, `lower(type)` (:98-99) and one name per navigation field of the target's
+  type (:101-116, a null join is bound to null), then evaluates.  For the object kinds of the inventory —
+  Host and Service, which have the same navigation fields except Service's `host` — every name is rebound
+  at every visit except `service`: it is bound only by visiting a Service and nothing unbinds it.  The
+  frame is therefore represented by the current binding of `service`. -/
+
+/-- The binding of `service` after EvaluateFilter has bound the names for target `o` in a frame where it
+    was `st`. -/
+def bindSvc (st : Option Obj) (o : Obj) : Option Obj := if o.type == "Service" then some o else st
+
+/-- The binding the permission filter of `o` sees: in the shared frame whatever earlier visits left,
+    with a fresh frame per object nothing. -/
+def frameFor (shared : Bool) (st : Option Obj) (o : Obj) : Option Obj :=
+  bindSvc (if shared then st else none) o
+
+/-- The permission filter evaluated on `o` alone (fresh frame): what "the filter is true for the object"
+    means in the property. -/
+def pfIso (fs : List PFilter) (o : Obj) : Option Bool := pfVal fs (bindSvc none o) o
 
 /-! ## GetFilterTargets (filterutility.cpp:203-353) -/
 
@@ -174,73 +213,92 @@ def namedSteps (types : List String) (q : Query) : List Step :=
 def namedRequests (types : List String) (q : Query) : List (String × String) :=
   (namedSteps types q).filterMap fun | .get t n => some (t, n) | .plural _ => none
 
+/-- Result, provider calls, and the frame left behind. -/
+structure Named where
+  result : Except Err (List Obj)
+  log : List Access
+  frame : Option Obj
+
 /-- :232-237 and :249-254: look the object up (missing ⇒ the provider throws), evaluate the permission
-    filter (false ⇒ "Access denied" is thrown), otherwise append.  An exception ends everything. -/
-def runNamed (pf : Obj → Bool) (inv : Inventory) : List Step → Except Err (List Obj) × List Access
-  | [] => (.ok [], [])
-  | .plural t :: rest =>
-    let r := runNamed pf inv rest
-    (r.1, .pluralName t :: r.2)
-  | .get t n :: rest =>
+    filter in the frame (false ⇒ "Access denied" is thrown, an error raised by the filter propagates),
+    otherwise append.  An exception ends everything. -/
+def runNamed (shared : Bool) (fs : List PFilter) (inv : Inventory) : List Step → Option Obj → Named
+  | [], st => ⟨.ok [], [], st⟩
+  | .plural t :: rest, st =>
+    let r := runNamed shared fs inv rest st
+    ⟨r.result, .pluralName t :: r.log, r.frame⟩
+  | .get t n :: rest, st =>
     match lookup inv t n with
-    | none => (.error .notFound, [.byName t n])
+    | none => ⟨.error .notFound, [.byName t n], st⟩
     | some o =>
-      if pf o then
-        let r := runNamed pf inv rest
-        (r.1.map (o :: ·), .byName t n :: r.2)
-      else (.error .denied, [.byName t n])
+      let st' := frameFor shared st o
+      match pfVal fs st' o with
+      | none => ⟨.error .other, [.byName t n], st'⟩
+      | some false => ⟨.error .denied, [.byName t n], st'⟩
+      | some true =>
+        let r := runNamed shared fs inv rest st'
+        ⟨r.result.map (o :: ·), .byName t n :: r.log, r.frame⟩
+
+/-- FilteredAddTarget (:121-129) over the objects a provider enumerates, or the loop :324-329 over the
+    fast-path targets (`uf := fun _ => some true`): the permission filter in the frame first, then the user
+    filter; an error raised by either ends the whole call. -/
+def visitAll (shared : Bool) (fs : List PFilter) (uf : Obj → Option Bool) : List Obj → Option Obj → Except Err (List Obj)
+  | [], _ => .ok []
+  | o :: rest, st =>
+    let st' := frameFor shared st o
+    match pfVal fs st' o with
+    | none => .error .other
+    | some false => visitAll shared fs uf rest st'
+    | some true =>
+      match uf o with
+      | none => .error .other
+      | some b => (visitAll shared fs uf rest st').map (fun l => if b then o :: l else l)
 
 /-- :284-285, :292, :306 the fast path is taken only with the default provider, for type Host or Service,
     when the recogniser accepted the filter. -/
 def fastNames (qd : QD) (t : String) (uf : UFilter) : Option (List String) :=
   if qd.cfgProvider && (t == "Host" || t == "Service") then uf.fast else none
 
-/-- :338-340 with FilteredAddTarget (:121-129): the permission filter first, then the user filter; an
-    error raised by the user filter ends the whole call. -/
-def evalFilter (pf : Obj → Bool) (uf : Obj → Option Bool) : List Obj → Except Err (List Obj)
-  | [] => .ok []
-  | o :: rest =>
-    if pf o then
-      match uf o with
-      | none => .error .other
-      | some b => (evalFilter pf uf rest).map (fun l => if b then o :: l else l)
-    else evalFilter pf uf rest
-
-/-- :260-350 the part entered when the query has a `filter` or nothing was addressed by name. -/
-def phase2 (pf : Obj → Bool) (qd : QD) (q : Query) (inv : Inventory) : Except Err (List Obj) × List Access :=
+/-- :260-350 the part entered when the query has a `filter` or nothing was addressed by name; `st` is the
+    frame the by-name part left behind. -/
+def phase2 (fs : List PFilter) (qd : QD) (q : Query) (inv : Inventory) (st : Option Obj) :
+    Except Err (List Obj) × List Access :=
   match q.type with
   | none => (.error .typeRequired, [])                                         -- :261-262
   | some t =>
     if !q.typeValid then (.error .invalidType, [.validType t])                 -- :266-267
     else if !qd.types.contains t then (.error .wrongType, [.validType t])      -- :269-270
     else match q.filter with
-      | none => (.ok ((ofType inv t).filter pf), [.validType t, .findAll t])   -- :342-348
+      | none =>                                                                -- :342-348
+        (visitAll qd.sharedFrame fs (fun _ => some true) (ofType inv t) st, [.validType t, .findAll t])
       | some uf =>
         match fastNames qd t uf with
           | some names =>                                                      -- :295-303, :310-318, :324-329
-            (.ok ((names.filterMap (lookup inv t)).filter pf), .validType t :: names.map (.fastGet t))
-          | none =>                                                            -- :331-340, FilteredAddTarget :121-129
-            (evalFilter pf uf.pred (ofType inv t), [.validType t, .findAll t])
+            (visitAll qd.sharedFrame fs (fun _ => some true) (names.filterMap (lookup inv t)) st,
+              .validType t :: names.map (.fastGet t))
+          | none =>                                                            -- :331-340
+            (visitAll qd.sharedFrame fs uf.pred (ofType inv t) st, [.validType t, .findAll t])
 
 def filterTargets (u : User) (qd : QD) (q : Query) (inv : Inventory) : Outcome :=
   if !hasPermission u qd.permission then ⟨.error .permission, []⟩              -- :214-215, :196-200
   else
-    let pf := permFilterFn u qd.permission
-    let r1 := runNamed pf inv (namedSteps qd.types q)
-    match r1.1 with
-    | .error e => ⟨.error e, r1.2⟩
+    let fs := permissionFilters u qd.permission
+    let r1 := runNamed qd.sharedFrame fs inv (namedSteps qd.types q) none      -- :217-218 a new, empty frame
+    match r1.result with
+    | .error e => ⟨.error e, r1.log⟩
     | .ok named =>
       if q.filter.isSome || named.isEmpty then                                  -- :260
-        let r2 := phase2 pf qd q inv
+        let r2 := phase2 fs qd q inv r1.frame
         match r2.1 with
-        | .error e => ⟨.error e, r1.2 ++ r2.2⟩
-        | .ok found => ⟨.ok (named ++ found), r1.2 ++ r2.2⟩
-      else ⟨.ok named, r1.2⟩
+        | .error e => ⟨.error e, r1.log ++ r2.2⟩
+        | .ok found => ⟨.ok (named ++ found), r1.log ++ r2.2⟩
+      else ⟨.ok named, r1.log⟩
 
 /-- What ObjectQueryHandler does for a joined object (objectqueryhandler.cpp:262-299): HasPermission,
-    then EvaluateFilter of the resulting permission filter on the object. -/
+    then EvaluateFilter of the resulting permission filter on the object in a frame of its own (:282); a
+    ScriptError counts as "not allowed" (:286-288). -/
 def accessGranted (u : User) (required : String) (o : Obj) : Bool :=
-  hasPermission u required && permFilterFn u required o
+  hasPermission u required && pfIso (permissionFilters u required) o == some true
 
 /-! ## The object handlers around GetFilterTargets (second, narrower layer of the correspondence) -/
 
@@ -263,5 +321,39 @@ def handlerTargets (u : User) (verb type : String) (pathName : Option String) (q
 def httpStatus : Except Err (List Obj) → Nat
   | .ok _ => 200
   | .error _ => 404
+
+/-- deleteobjecthandler.cpp:58-65, 83-91, 114-117 for objects that were *not* created through the API
+    (configobjectutility.cpp:386-391 refuses them): 500 as soon as one target exists. -/
+def deleteStatusNonApi : Except Err (List Obj) → Nat
+  | .ok [] => 200
+  | .ok _ => 500
+  | .error _ => 404
+
+/-- actionshandler.cpp:47-69: the action's types (here Host and Service), permission `actions/<name>`,
+    `type` and the names come from the request; no target ⇒ 404. -/
+def actionQD (action : String) : QD :=
+  { types := ["Host", "Service"], permission := "actions/" ++ action, cfgProvider := true }
+
+def actionQuery (type : String) (name : Option String) (q : Query) : Query :=
+  { q with type := some type, typeValid := true,
+           single := match name with | some n => (type, n) :: q.single | none => q.single }
+
+def actionStatus : Except Err (List Obj) → Nat
+  | .ok [] => 404
+  | .ok _ => 200
+  | .error _ => 404
+
+/-- Required permission of the handlers whose targets are not config objects (checked against the source by
+    the generated table IcingaProofs/Gen/Permissions.lean). -/
+def handlerPermission : String → Option String
+  | "templates" => some "templates/query/Host"   -- templatequeryhandler.cpp:106, for /v1/templates/hosts
+  | "variables" => some "variables"              -- variablequeryhandler.cpp:80
+  | "types" => some "types"                      -- typequeryhandler.cpp:70
+  | "status" => some "status/query"              -- statushandler.cpp:93
+  | "console" => some "console"                  -- consolehandler.cpp:81
+  | _ => none
+
+/-- CheckPermission at the head of these handlers: no matching entry ⇒ the request fails (404). -/
+def grantStatus (u : User) (perm : String) : Nat := if hasPermission u perm then 200 else 404
 
 end Icinga.C18
